@@ -8,17 +8,21 @@ def register(m):
     # ---- C05
     m("C05", "c05-mul-adds-factor", CQ, "    factor *= arg_factor\n", "    factor += arg_factor\n", "S6")
     m("C05", "c05-mul-dim-not-multiplied", CQ, "    return (factor, dim * arg_dim)", "    return (factor, dim)", "S6")
-    m("C05", "c05-add-multiplies", CQ, "    return (factor + arg_factor, dim)", "    return (factor * arg_factor, dim)", "S6")
+    m("C05", "c05-add-multiplies", CQ, "    return (Add(*factors), dim)", "    return (Mul(*factors), dim)", "S6")
     m("C05", "c05-pow-dim-exponent-differs", CQ, "        return (base_factor**exp_factor, base_dim**exp_factor)", "        return (base_factor**exp_factor, base_dim**2)", "S6")
     m("C05", "c05-wrapper-skips-second", CQ, "        for arg in expr.args[1:]:", "        for arg in expr.args[2:]:", "S1")
     m("C05", "c05-pow-exp-not-collected", CQ, "    (exp_factor, exp_dim) = collect_quantity_factor_and_dimension(expr.exp)",
       "    (exp_factor, exp_dim) = (expr.exp, dimensionless)", "S1")
     m("C05", "c05-function-first-arg-only", CQ, "    for arg in expr.args:\n        (arg_factor, arg_dim) = collect_quantity_factor_and_dimension(arg)",
       "    for arg in expr.args[:1]:\n        (arg_factor, arg_dim) = collect_quantity_factor_and_dimension(arg)", "S1")
-    m("C05", "c05-add-no-escape-for-new-term", CQ, "    if is_any_dimension(factor):\n        dim = arg_dim\n    elif is_any_dimension(arg_factor):\n        arg_dim = dim\n\n    if not dimsys_SI.equivalent_dims(dim, arg_dim):\n        raise ValueError(f\"Dimension of '{arg}' is {arg_dim}, but it should be {dim}\")\n\n    return (factor + arg_factor, dim)",
-      "    if is_any_dimension(factor):\n        dim = arg_dim\n\n    if not dimsys_SI.equivalent_dims(dim, arg_dim):\n        raise ValueError(f\"Dimension of '{arg}' is {arg_dim}, but it should be {dim}\")\n\n    return (factor + arg_factor, dim)", "S3")
-    m("C05", "c05-add-no-refusal", CQ, "    if not dimsys_SI.equivalent_dims(dim, arg_dim):\n        raise ValueError(f\"Dimension of '{arg}' is {arg_dim}, but it should be {dim}\")\n\n    return (factor + arg_factor, dim)",
-      "    return (factor + arg_factor, dim)", "S3")
+    m("C05", "c05-terms-no-escape", CQ, "        if is_any_dimension(arg_factor):\n            continue\n\n        if dim is None:", "        if dim is None:", "S3")
+    m("C05", "c05-terms-no-refusal", CQ, "        if not dimsys_SI.equivalent_dims(dim, arg_dim):\n            raise ValueError(f\"Dimension of '{arg}' is {arg_dim}, but it should be {dim}\")\n\n    return factors,", "    return factors,", "S3")
+    m("C05", "c05-terms-adopt-before-escape", CQ, "        if is_any_dimension(arg_factor):\n            continue\n\n        if dim is None:\n            dim = arg_dim\n            continue\n",
+      "        if dim is None:\n            dim = arg_dim\n            continue\n\n        if is_any_dimension(arg_factor):\n            continue\n", "S3")
+    m("C05", "c05-running-sum-regression", CQ, "        if is_any_dimension(arg_factor):\n            continue\n\n        if dim is None:",
+      "        if is_any_dimension(Add(*factors)):\n            dim = None\n\n        if dim is None:", "S3")
+    m("C05", "c05-terms-skip-first", CQ, "    for arg in expr.args:\n        arg_factor, arg_dim = collect_quantity_factor_and_dimension(arg)\n        factors.append(arg_factor)",
+      "    for arg in expr.args[1:]:\n        arg_factor, arg_dim = collect_quantity_factor_and_dimension(arg)\n        factors.append(arg_factor)", "S1")
     m("C05", "c05-pow-dimensional-exponent-accepted", CQ, "    if is_any_dimension(exp_factor) or dimsys_SI.is_dimensionless(exp_dim):\n        return (base_factor**exp_factor, base_dim**exp_factor)\n\n    raise ValueError",
       "    return (base_factor**exp_factor, base_dim**exp_factor)\n\n    raise ValueError", "S3")
     m("C05", "c05-function-before-abs", CQ, "    Abs: _collect_abs,\n    MinMaxBase: _collect_min_max,\n    Derivative: _unsupported_derivative,\n    SymFunction: _collect_function,",
@@ -28,7 +32,7 @@ def register(m):
     m("C05", "c05-scale-check-after-register", QT, "        SI.set_quantity_dimension(self, dimension)\n        SI.set_quantity_scale_factor(self, scale)\n", "",
       "S4", extra=[(QT, "        (scale, dimension_) = collect_quantity_factor_and_dimension(expr)\n", "        (scale, dimension_) = collect_quantity_factor_and_dimension(expr)\n        SI.set_quantity_dimension(self, dimension or dimension_)\n        SI.set_quantity_scale_factor(self, scale)\n", 1)])
     m("C05", "c05-minmax-entry-dropped", CQ, "    MinMaxBase: _collect_min_max,\n", "", "S2")
-    m("C05", "c05-rename-ok", CQ, "arg_factor", "term_factor", "SILENT", count=13)
+    m("C05", "c05-rename-ok", CQ, "arg_factor", "term_factor", "SILENT", count=10)
     # ---- C06
     m("C06", "c06-derivative-regression", CE, "    _, dim = collect_expression_and_dimension(func)\n", "    _, dim = collect_expression_and_dimension(func.func)\n", "S1")
     m("C06", "c06-derivative-vars-ignored", CE, "        arg_expr, arg_dim = collect_expression_and_dimension(arg)\n        dim /= arg_dim**n", "        arg_expr, arg_dim = arg, dimensionless\n        dim /= arg_dim**n", "S1")
@@ -42,3 +46,5 @@ def register(m):
     m("C06", "c06-wrapper-dimension-from-elsewhere", SY, "        self.dimension = collect_expression_and_dimension(expr)[1]", "        self.dimension = Dimension(1)", "S5")
     m("C06", "c06-add-skips-dimension-check", CE, "    nums, qtys, syms = _split_numeric_and_symbolic(expr)\n    dim = _collect_unique_dimension(nums, qtys, syms)\n\n    qty_sum",
       "    nums, qtys, syms = _split_numeric_and_symbolic(expr)\n    dim = syms[0][1] if syms else dimensionless\n\n    qty_sum", ("S3", "S1"))
+    m("C06", "c06-adopt-before-escape-regression", CE, "    for qty in qtys:\n        if is_any_dimension(qty.scale_factor):\n            continue\n\n        if dim is None:\n            dim = qty.dimension\n            continue\n",
+      "    for qty in qtys:\n        if dim is None:\n            dim = qty.dimension\n            continue\n\n        if is_any_dimension(qty.scale_factor):\n            continue\n", "S3")
